@@ -99,7 +99,7 @@ func runC20(c *ev.Ctx) {
 		"(e) lossy-only options must not change lossless bytes; (f) EmulateJpegSize changes nothing, TargetPSNR changes nothing when TargetSize is set; (g) OptionsForPreset(PresetDefault,q)==defaults; (h) boundary image dimensions; " +
 		"(i) extreme ints in every int field: error or valid file, never a panic. distinct = (kind, mutated field/value or sentinel subset, codec, alpha)"
 	n := c.N(10000, 1500000)
-	kinds := []string{"illegal", "legal", "sentinel", "sentinel", "nil", "lossyonly", "jpeg", "preset", "dims", "extreme", "illegal", "sentinel", "psnr", "pinned", "psnrtarget"}
+	kinds := []string{"illegal", "legal", "sentinel", "sentinel", "nil", "lossyonly", "jpeg", "preset", "dims", "extreme", "illegal", "sentinel", "psnr", "pinned", "psnrtarget", "qclamp"}
 	var cases []ev.Case
 	for i := 0; i < n; i++ {
 		cc := c20Case{Kind: kinds[i%len(kinds)], Sub: i / len(kinds)}
@@ -300,6 +300,29 @@ func c20One(c *ev.Ctx, cs ev.Case) {
 		} else if bytes.Equal(ba, bb) {
 			c.Violate(cs, "target-psnr-without-effect", map[string]string{"kind": "psnrtarget"}, fmt.Sprintf("TargetPSNR 15 and 60 give the same %d bytes [%s]", len(ba), optString(a)), map[string]string{"a": optString(a), "b": optString(&b)})
 		}
+	case "qclamp":
+		// QMin / QMax are documented as the minimum / maximum quality ("Matches C libwebp's qmin/qmax", where the
+		// quality is clamped into [qmin, qmax] before any pass): a Quality outside the window behaves as the nearest bound.
+		mm := img.Gen(r, pickS(r, "photo", "noise", "tiles", "gradient"), pickS(r, "opaque", "opaque", "gradient"), 16+r.Intn(80), 16+r.Intn(80))
+		a := legalOpts(r, false)
+		a.TargetSize, a.TargetPSNR = pickI(r, 0, 0, 0, 2000), 0
+		a.Preprocessing &^= 2 // the dithering amplitude follows the requested Quality itself (as in libwebp), not the clamped one
+		b := *a
+		what := ""
+		if r.Intn(2) == 0 {
+			lo := pickI(r, 30, 50, 80, 100)
+			a.QMin, a.QMax, a.Quality = lo, 100, float32(pickI(r, 0, 10, lo-1))
+			b.QMin, b.QMax, b.Quality = lo, 100, float32(lo)
+			what = fmt.Sprintf("Quality %g below QMin %d vs Quality = QMin", a.Quality, lo)
+		} else {
+			hi := pickI(r, 0, 20, 50, 70)
+			a.QMin, a.QMax, a.Quality = 0, hi, float32(pickI(r, 100, 90, hi+1))
+			b.QMin, b.QMax, b.Quality = 0, hi, float32(hi)
+			what = fmt.Sprintf("Quality %g above QMax %d vs Quality = QMax", a.Quality, hi)
+		}
+		c.Distinct(fmt.Sprintf("qclamp|%s|M%d|ts%d", what[:14], a.Method, a.TargetSize))
+		m = mm
+		same(what, a, &b, map[string]string{"kind": "qclamp"})
 	case "pinned":
 		// QMin == QMax (both documented as literal quality values in 0..100, only QMax < 0 is a sentinel) leaves the
 		// size / PSNR search no freedom: with Quality at the same value every pass runs at that quality, so the value
